@@ -29,7 +29,7 @@ BOUNDS = {"quick": "every sequence of <= 2 events out of {regular proposal, oper
                    "containing a bounds update (proposals fully specified); 1 regular and 1 operating-point actor; plus sequences with a PartialFailure result or an expiry step",
           "thorough": "+ all 3-proposal sequences, exclusion zone, every None pattern for 3 events (budgeted)"}
 OUTSIDE = "more actors/priorities; the real select loop and channels (handlers are called directly); several component groups"
-BUDGET = {"quick": 900, "thorough": 3600}
+BUDGET = {"quick": 1500, "thorough": 1800}
 IDS = frozenset({1})
 W = Power.from_watts
 
